@@ -341,6 +341,8 @@ def apply_bound(ex, st, k, args, site):
     for r in cl.emits: ex.emit(post, r)
     if cl.result_pv is not None: result = cl.result_pv
     for label, f in cl.ensures: post.assume(f)
+    for rc in cl.raises:
+        if rc.iff and rc.when is not None: post.assume(Not(rc.when))       # "raises iff": a normal return excludes the condition
     never = any(z3.is_false(z3.simplify(f)) for _, f in cl.ensures if is_expr(f))
     if not never and ex.feasible(post): outs.append((post, result))
     for rc in cl.raises:
@@ -872,3 +874,58 @@ def _reversed(ex, st, pos, named, node):
     if isinstance(v, PConst) and isinstance(v.obj, (tuple, list)): return [(st, PConst(tuple(reversed(v.obj))))]
     arr, n = seq_of(v, st); j = fresh('j', IntSort())
     return [(st, PSeq(z3.Lambda([j], arr[n - 1 - j]), n, getattr(v, 'elem', 'val'), True))]
+
+
+class PRange(PV):
+    """range(n) with a symbolic bound"""
+    def __init__(self, n): self.n = n
+
+
+@builtin(range)
+def _range(ex, st, pos, named, node):
+    if all(isinstance(p, PConst) for p in pos): return [(st, PConst(range(*[p.obj for p in pos])))]
+    if len(pos) != 1: raise Unsupported('range with a symbolic start/step')
+    return [(st, PRange(as_kind(pos[0], INT, st)))]
+
+
+def _all_any(is_all):
+    def h(ex, st, pos, named, node):
+        v, = pos
+        if isinstance(v, PTuple):
+            cs = [truth(x, st) for x in v.items]
+            return [(st, ZV('bool', (And(*cs) if is_all else Or(*cs)) if cs else BoolVal(is_all)))]
+        arr, n = seq_of(v, st); j = fresh('j', IntSort())
+        if is_all: return [(st, ZV('bool', ForAll([j], Implies(And(0 <= j, j < n), truthy(arr[j])))))]
+        return [(st, ZV('bool', Exists([j], And(0 <= j, j < n, truthy(arr[j])))))]
+    return h
+
+
+BUILTIN_HANDLERS[id(all)] = _all_any(True)
+BUILTIN_HANDLERS[id(any)] = _all_any(False)
+
+
+@method(ZV, 'get')
+def _val_get(ex, st, recv, pos, named, node):
+    """mapping.get on a value that is a dict"""
+    if recv.kind != 'val': return None
+    arr = dict_c(Val.dk(recv.z))
+    cell = arr[ex.as_str(st, pos[0])]
+    dflt = to_val(pos[1], st) if len(pos) > 1 else Val.VNone
+    return [(st, ZV('val', If(Opt.is_Some(cell), Opt.v(cell), dflt)))]
+
+
+def _register_value_classes():
+    import edzed.fsm as _f, edzed.block as _b
+    def goto(ex, st, pos, named, node):
+        v = pos[0] if pos else named['state']
+        return [(st, ZV('val', Val.Goto(ex.as_str(st, v))))]
+    def eventcond(ex, st, pos, named, node):
+        a = pos[0] if len(pos) > 0 else named['etrue']; b = pos[1] if len(pos) > 1 else named['efalse']
+        k = fresh('ec', IntSort()); st = st.copy()
+        st.assume(ec_true(k) == to_val(a, st), ec_false(k) == to_val(b, st))
+        return [(st, ZV('val', Val.EC(k)))]
+    BUILTIN_HANDLERS[id(_f.Goto)] = goto
+    BUILTIN_HANDLERS[id(_b.EventCond)] = eventcond
+
+
+_register_value_classes()
